@@ -125,7 +125,11 @@ class Environment(DataStoreMixin):
 
     """
 
-    def __init__(self, factory=ObjectFactory(), store=None, source=None, sink=None):
+    def __init__(self, factory=None, store=None, source=None, sink=None):
+        if factory is None:
+            # (not a default argument value: that one object would be shared
+            # by every Environment)
+            factory = ObjectFactory()
         self.factory = factory
         self.source = CompositeDataSource()
         if store:
